@@ -11,8 +11,10 @@ Completeness of the builders (converse of R2): vocabulary.
                     conversion) can refuse the value.
 * `total dt n md` — the schema-level exclusion found while proving completeness: a nullable struct /
                     fixed-size list whose children cannot take `serialize_default` (an `UnknownVariant`
-                    placeholder, a union without variants) refuses `None` although the documented mapping says
-                    `null`; unions have at most 128 variants (type ids are `i8`).
+                    placeholder, a union without variants or with placeholder variants only) refuses `None`
+                    although the documented mapping says `null`; unions have at most 128 variants (type ids are
+                    `i8`).  Since repo fix 837fa53 a union takes `serialize_default` through its first variant
+                    that is not a placeholder (`defOKFirst`); before, through variant 0 whatever it was.
 -/
 namespace SaModel.Build
 open SaModel SaModel.Spec
@@ -114,22 +116,28 @@ def UFields.length : UFields → Nat
   | .nil => 0
   | .cons _ _ r => UFields.length r + 1
 
+/-- the field `build_builder` turns into an `UnknownVariant` placeholder -/
+def isPlaceholderF : Field → Bool
+  | .mk _ dt _ md => isUnknownVariant dt md
+
 mutual
 /-- `serialize_default` is supported by the builder of this type (all of its parts that receive it) -/
 def defOK : DataType → Metadata → Bool
   | .null, md => !isUnknownVariant .null md
   | .fixedSizeList f _, _ => defOKF f
   | .struct fs, _ => defOKFs fs
-  | .union ufs _, _ => defOKHead ufs
+  | .union ufs _, _ => decide (UFields.length ufs ≤ 128) && defOKFirst ufs
   | _, _ => true
 def defOKF : Field → Bool
   | .mk _ dt _ md => defOK dt md
 def defOKFs : Fields → Bool
   | .nil => true
   | .cons f r => defOKF f && defOKFs r
-def defOKHead : UFields → Bool
+/-- `UnionBuilder::serialize_default` (after repo fix 837fa53) delegates to the first variant that is not an
+`UnknownVariant` placeholder: SOME variant is not a placeholder, and the first such supports `serialize_default` -/
+def defOKFirst : UFields → Bool
   | .nil => false
-  | .cons _ f _ => defOKF f
+  | .cons _ f r => if isPlaceholderF f then defOKFirst r else defOKF f
 end
 
 mutual
